@@ -310,8 +310,14 @@ func checkChallenge(c chalCase) []vf.Finding {
 		if err != nil {
 			fs = append(fs, vf.F("ntlm.ParseTargetInfo", "well-formed-list-rejected", "%v", err))
 		} else {
-			if len(m) != len(pairs) {
-				fs = append(fs, vf.F("ntlm.ParseTargetInfo", "pair-count-differs", "got %d want %d", len(m), len(pairs)))
+			// the terminating MsvAvEOL (id 0, no value) is a pair of the list too: a map that records it says
+			// nothing the list does not; every other entry must be one of the pairs that were sent
+			n := len(m)
+			if v, ok := m[0]; ok && len(v) == 0 {
+				n--
+			}
+			if n != len(pairs) {
+				fs = append(fs, vf.F("ntlm.ParseTargetInfo", "pair-count-differs", "got %d want %d", n, len(pairs)))
 			}
 			for _, p := range pairs {
 				if v, ok := m[p.ID]; !ok || !bytes.Equal(v, p.Value) {
@@ -418,11 +424,19 @@ func is7bit(s string) bool {
 //   - EncryptedRandomSessionKeyFields -> nothing, or 16 bytes when the message's own flags announce a key
 //     exchange. A message that announces one and carries no key is not judged (the library implements none).
 //
+// No user name and no password is the anonymous identity of MS-NLMP (3.3.1 / 3.3.2 "special case for anonymous
+// authentication"): next to the computed responses the anonymous form is accepted for it - NtChallengeResponseFields
+// designates nothing and LmChallengeResponseFields the one byte Z(1). The session key descriptor is judged as always.
+//
 // Bytes of the payload that no descriptor designates remain allowed; a field's own bytes must be designated.
 func checkResponseFields(who, pre string, a *nlmp.Authenticate, c chalCase, id identity) []vf.Finding {
 	var fs []vf.Finding
 	nt := refcrypto.NT(id.Password)
 	unicode := c.Flags&nlmp.FlagUnicode != 0
+	if id.User == "" && id.Password == "" && a.NT.Len == 0 && bytes.Equal(a.LM.Data, []byte{0}) {
+		// the anonymous form: there is no response to verify
+		return append(fs, checkSessionKeyField(who, pre, a)...)
+	}
 	if len(a.LM.Data) != 24 {
 		fs = append(fs, vf.F(who, pre+"lm-response-descriptor-not-24-bytes", "LmChallengeResponseFields designates %d bytes at %d (NtChallengeResponseFields: %d bytes at %d)", a.LM.Len, a.LM.Offset, a.NT.Len, a.NT.Offset))
 	}
@@ -454,6 +468,10 @@ func checkResponseFields(who, pre string, a *nlmp.Authenticate, c chalCase, id i
 			}
 		}
 	}
+	return append(fs, checkSessionKeyField(who, pre, a)...)
+}
+
+func checkSessionKeyField(who, pre string, a *nlmp.Authenticate) (fs []vf.Finding) {
 	if k := a.SessionKey.Len; k != 0 && !(k == 16 && a.Flags&flagKeyExch != 0) {
 		fs = append(fs, vf.F(who, pre+"session-key-descriptor-inconsistent-with-flags", "EncryptedRandomSessionKeyFields designates %d bytes, flags %#x (KEY_EXCH %v)", k, a.Flags, a.Flags&flagKeyExch != 0))
 	}
@@ -494,10 +512,8 @@ func checkAuthenticate(c chalCase) []vf.Finding {
 			fs = append(fs, vf.F("ntlm.CreateAuthenticateMessage", "name-bytes-differ-from-charset-encoding", "%s: payload %x for %q (unicode %v)", f.fld.Name, f.fld.Data, f.name, unicode))
 		}
 	}
-	if len(msg) < 88 {
-		fs = append(fs, vf.F("ntlm.CreateAuthenticateMessage", "header-shorter-than-88", "%d bytes", len(msg)))
-	}
-	// as for NEGOTIATE, padding bytes outside every descriptor are not judged
+	// the fixed part may be 64, 72 (Version) or 88 bytes (Version and MIC) long: ParseAuthenticate reads the form
+	// off the first payload offset; as for NEGOTIATE, padding bytes outside every descriptor are not judged
 	return append(fs, checkResponseFields("ntlm.CreateAuthenticateMessage", "", a, c, c.identity())...)
 }
 
@@ -653,9 +669,9 @@ type identity struct {
 // that comes back against that challenge and the identity the context was created with. pre is put in front
 // of the finding kinds.
 //
-// A context may refuse a CHALLENGE that negotiates no character set (see noCharset): that is no finding, and
-// *refused (if given) tells the caller that no AUTHENTICATE came back.
-func processOnce(ctx *spnego.AuthContext, c chalCase, id identity, pre string, refused *bool) []vf.Finding {
+// A context may refuse a CHALLENGE that negotiates no character set (see noCharset), and with mayRefuse any
+// CHALLENGE: that is no finding, and *refused (if given) tells the caller that no AUTHENTICATE came back.
+func processOnce(ctx *spnego.AuthContext, c chalCase, id identity, pre string, mayRefuse bool, refused *bool) []vf.Finding {
 	const who = "AuthContext.ProcessChallengeToken"
 	_, _, inner := c.wire()
 	wrapped, err := spnego.CreateNegTokenResp(spnego.AcceptIncomplete, spnego.NtlmOID, inner)
@@ -664,7 +680,7 @@ func processOnce(ctx *spnego.AuthContext, c chalCase, id identity, pre string, r
 	}
 	out, err := ctx.ProcessChallengeToken(wrapped)
 	if err != nil {
-		if c.noCharset() {
+		if mayRefuse || c.noCharset() {
 			if refused != nil {
 				*refused = true
 			}
@@ -688,7 +704,8 @@ func processOnce(ctx *spnego.AuthContext, c chalCase, id identity, pre string, r
 	if a == nil || len(problems) > 0 {
 		return fs
 	}
-	if ctx.NTLMChallenge == nil || !bytes.Equal(ctx.NTLMChallenge.ServerChallenge[:], c.ServerChallenge) {
+	// whether the context keeps the parsed CHALLENGE is its own bookkeeping; one it does keep is the one it answered
+	if ctx.NTLMChallenge != nil && !bytes.Equal(ctx.NTLMChallenge.ServerChallenge[:], c.ServerChallenge) {
 		fs = append(fs, vf.F(who, pre+"challenge-not-recorded", "%v, processed server challenge %x", ctx.NTLMChallenge, []byte(c.ServerChallenge)))
 	}
 	unicode := c.Flags&nlmp.FlagUnicode != 0
@@ -709,11 +726,14 @@ func (c chalCase) identity() identity { return identity{c.User, c.Password, c.Do
 
 func checkProcess(c chalCase) []vf.Finding {
 	ctx := spnego.NewAuthContext(spnego.AuthTypeNTLM, c.Domain, c.User, c.Password, c.Workstation, c.Flags&nlmp.FlagUnicode != 0)
-	return processOnce(ctx, c, c.identity(), "", nil)
+	return processOnce(ctx, c, c.identity(), "", false, nil)
 }
 
 // One context, two challenges in a row (a server may answer a retried session setup with a fresh challenge):
-// the second AUTHENTICATE answers the second challenge and is as well-formed as the first.
+// the second AUTHENTICATE answers the second challenge and is as well-formed as the first. The property
+// quantifies over inputs, not over the history of a context: one that has given its answer may refuse a further
+// CHALLENGE with an error (a GSS context that has sent its last token is complete); that is a refusal, not a
+// finding. An answer that is given is judged in full.
 type twiceCase struct {
 	First  chalCase `json:"first"`  // also supplies the identity of the context
 	Second chalCase `json:"second"` // its identity fields are not used
@@ -722,11 +742,11 @@ type twiceCase struct {
 func checkProcessTwice(c twiceCase) []vf.Finding {
 	ctx := spnego.NewAuthContext(spnego.AuthTypeNTLM, c.First.Domain, c.First.User, c.First.Password, c.First.Workstation, c.First.Flags&nlmp.FlagUnicode != 0)
 	var refused bool
-	if fs := processOnce(ctx, c.First, c.First.identity(), "", &refused); len(fs) > 0 || refused {
+	if fs := processOnce(ctx, c.First, c.First.identity(), "", false, &refused); len(fs) > 0 || refused {
 		// a context that refused its first challenge has answered nothing: there is no "second" answer to judge
 		return fs
 	}
-	return processOnce(ctx, c.Second, c.First.identity(), "reused-context-", nil)
+	return processOnce(ctx, c.Second, c.First.identity(), "reused-context-", true, nil)
 }
 
 func decodeUTF16(b []byte) string {
